@@ -52,6 +52,7 @@ def parse(full):
     s["has_userinfo"] = r["userinfo"] is not None and r["userinfo"] != ""
     s["raw_host"] = r["host"]
     s["raw_query"] = r["query"]
+    s["raw_path"] = r["path"]
     return s
 
 
@@ -239,6 +240,10 @@ def eval_norm(case):
     if got not in allowed:
         res.append(("C05/path", desc + ": path %r (trailing slash %s) -> %r (trailing slash %s) is more than removing a trailing slash, index page or AMP marker as allowed by the options" % (
             a["path"], a["trailing_slash"], b["path"], b["trailing_slash"])))
+    # 'the input's *resolved* path': no dot segment may survive in the result, in whatever spelling
+    dots = [sg for sg in (b["raw_path"] or "").split("/") if urlref.dec(sg) in (b".", b"..")]
+    if dots:
+        res.append(("C05/path-unresolved", desc + ": the result still contains the dot segment %r" % (dots[0],)))
     # query
     q_in = a["raw_query"]
     if o["fix_common_mistakes"] and q_in:
